@@ -3,6 +3,6 @@ Require Extraction.
 Require Import ExtrOcamlBasic.
 Extraction Language OCaml.
 Extraction "C17_model.ml" wire_anchor
-  run_m run_words_m step_m observe_m init_m of_string of_ullong to_string_m to_ullong_m count_m all_m any_m none_m
+  run_m run_words_m step_m observe_m init_m of_string of_cstring of_ullong to_string_m to_ullong_m count_m all_m any_m none_m
   words_eqb popcount popcount_fallback ones padding_mask padding_mask_inv num_words
-  s_run s_step s_observe s_init s_of_string s_to_string s_count s_value ct_ops ct_check ct_str_ops ct_str_check.
+  s_run s_step s_observe s_init s_of_string s_of_cstring s_to_string s_count s_value ct_ops ct_check ct_str_ops ct_str_check.
